@@ -105,13 +105,12 @@ Lemma prod_closed_alt p0 op s t :
 Proof. reflexivity. Qed.
 
 (* the series, as a list, for every lifetime and number of steps per year *)
-Lemma prod_pressure_closed life k p0 op rate s :
-  (0 < life * k)%nat -> 0 <= p0 -> 100 <= op ->
-  depletion_steps rate k = Some s -> (1 <= s)%Z ->
-  exists l, prod_pressure life k p0 op rate = Vals l /\ length l = (life * k)%nat /\
+Lemma prod_pressure_with_closed life k p0 op s :
+  (0 < life * k)%nat -> 0 <= p0 -> 100 <= op -> (1 <= s)%Z ->
+  exists l, prod_pressure_with life k p0 op (Some s) = Vals l /\ length l = (life * k)%nat /\
             forall t, (t < life * k)%nat -> nth t l 0 == prod_closed p0 op s t.
 Proof.
-  intros Hn Hp Hop Hs Hs1. unfold prod_pressure.
+  intros Hn Hp Hop Hs1. unfold prod_pressure_with.
   assert (Hsq : 0 < inject_Z s) by (change 0 with (inject_Z 0); rewrite <- Zlt_Qlt; lia).
   destruct (Qeqb op 100) eqn:E.
   - apply Qeqb_true in E. exists (repeat p0 (life * k)). split; [reflexivity|]. split; [apply repeat_length|].
@@ -120,7 +119,7 @@ Proof.
     assert (Epf : p0 * (op / 100) == p0) by (rewrite E; field).
     rewrite Epf. setoid_replace ((p0 - p0) / inject_Z s * natQ t) with 0 by (field; lra). lra.
   - destruct (life * k)%nat as [|r] eqn:En; [lia|].
-    rewrite Hs. destruct (Z.eqb s 0) eqn:Ez; [apply Z.eqb_eq in Ez; lia|].
+    destruct (Z.eqb s 0) eqn:Ez; [apply Z.eqb_eq in Ez; lia|].
     set (pf := p0 * (op / 100)). set (c := (pf - p0) / inject_Z s).
     assert (Hpf : p0 <= pf).
     { unfold pf. assert (1 <= op / 100) by (apply Qle_shift_div_l; lra). nra. }
@@ -129,6 +128,15 @@ Proof.
     intros t Ht. rewrite prod_closed_alt. fold pf. fold c. destruct t as [|j].
     + cbn [nth]. rewrite Q.max_r; rewrite natQ_0; lra.
     + cbn [nth]. rewrite (prod_loop_nth pf c p0 Hc) by lia. replace (1 + j)%nat with (S j) by lia. reflexivity.
+Qed.
+
+Lemma prod_pressure_closed life k p0 op rate s :
+  (0 < life * k)%nat -> 0 <= p0 -> 100 <= op ->
+  depletion_steps rate k = Some s -> (1 <= s)%Z ->
+  exists l, prod_pressure life k p0 op rate = Vals l /\ length l = (life * k)%nat /\
+            forall t, (t < life * k)%nat -> nth t l 0 == prod_closed p0 op s t.
+Proof.
+  intros Hn Hp Hop Hs Hs1. unfold prod_pressure. rewrite Hs. apply prod_pressure_with_closed; assumption.
 Qed.
 
 (* consequences of the closed form *)
@@ -244,7 +252,7 @@ Lemma prod_pressure_fast_is_error life k p0 op rate :
   (0 < life * k)%nat -> ~ op == 100 -> 100 * natQ k < rate ->
   prod_pressure life k p0 op rate = Err E_ZERODIV.
 Proof.
-  intros Hn Hop Hr. unfold prod_pressure.
+  intros Hn Hop Hr. unfold prod_pressure, prod_pressure_with.
   destruct (Qeqb op 100) eqn:E; [apply Qeqb_true in E; contradiction|].
   destruct (life * k)%nat as [|r] eqn:En; [lia|].
   assert (Hk : (0 < k)%nat) by (destruct k; [rewrite Nat.mul_0_r in En; discriminate|lia]).
